@@ -1,0 +1,15 @@
+//go:build verif
+
+package otel
+
+// Verification shim for property C01 (fixed-window quotas). Exporting only: it
+// lets the harness install the meter GetMeter() hands out (what setRealMeter
+// does at system boot), so that the callbacks the engine registers for its
+// observable gauges can be invoked the way the OTel reader does on a collection.
+
+import "go.opentelemetry.io/otel/metric"
+
+// VerifC01SetMeter makes GetMeter() return m (nil: back to the no-op meter).
+func VerifC01SetMeter(m metric.Meter) {
+	setRealMeter(m)
+}
